@@ -12,6 +12,9 @@ CHECKS = {
  "C02": dict(engine="treemc", cat="model_checking", sec="5/C02",
    text="Explicit-state search over the same tree space as C01 (k=2 quick, 3 thorough, all 8 configurations): in every state the tree is rendered with TogNMINotifications (PathElem) at the root and at every container/list-entry sub-root with PathElemPrefix=path(node), the notifications are applied to an empty root with UnmarshalNotifications, and leaves, leaf-lists and ordered-list order are compared with the reference Model. A dedicated sub-check drives the exposed ordered list.",
    technique="explicit-state BFS over tree-building sequences on the real implementation, gNMI round-trip law in every state and at every prefix", note=TREE_NOTE),
+ "C03": dict(engine="treemc", cat="model_checking", sec="5/C03",
+   text="Ordered pairs (a,b) of explicit-state search states: all pairs of k<=1 states over the full alphabet and all pairs of k<=2 states over the ordered-list atoms (quick: 4 packages covering simple/wrapper x compressed/uncompressed; thorough: all 8 plus k<=2 x k<=1), x {Diff, DiffWithAtomic, IgnoreAdditions, MapToSinglePath}. Every update and delete is judged directly against the two reference Models (soundness, minimality, completeness, IgnoreAdditions), the notifications are applied to a twin of a and compared with b (order included for DiffWithAtomic), and 3-step histories apply successive diffs to a running copy.",
+   technique="explicit-state enumeration of state pairs and short histories on the real implementation against a path-to-value reference model", note=TREE_NOTE),
  "C04": dict(engine="treemc", cat="model_checking", sec="5/C04",
    text="Explicit-state search (k=2 quick, 3 thorough, all 8 configurations, including empty non-nil maps / ordered maps / leaf-lists): every state is deep-copied and checked for Model equality, for shared mutable memory by an exhaustive pointer-graph walk (pointees, maps, slice backing arrays reachable from both objects), and by overwriting everything reachable from the copy (then from the original) and comparing the other side with a pristine twin. MergeStructs gets the same walk against both inputs on all ordered pairs of k<=1 states x 4 option sets.",
    technique="explicit-state BFS over tree-building sequences; aliasing decided by pointer-graph intersection plus in-place mutation against a twin", note=TREE_NOTE),
